@@ -9,6 +9,7 @@ import (
 	"time"
 
 	"github.com/influxdata/influxdb/models"
+	"github.com/influxdata/influxdb/pkg/verifhook"
 	"github.com/influxdata/influxdb/tsdb"
 	"github.com/influxdata/influxql"
 	"go.uber.org/zap"
@@ -739,6 +740,7 @@ func (cl *CacheLoader) Load(cache *Cache) error {
 					if err := f.Truncate(n); err != nil {
 						return err
 					}
+					verifhook.Fire("wal.replay.truncated", f.Name(), n)
 					break
 				}
 
